@@ -30,6 +30,38 @@ def check_C01(ctx):
     reporters = ["text", "quiet", "cute"]
     dis, orf = explore(ctx, bench, scens, reporters, oracle_C01, "C01")
     report(ctx, bench, dis, orf, oracle_C01, "C01")
+    # Failed checks that reach the channel outside a test's own bracket - in a suite's legacy fixture run by the reporting
+    # process around a sub-suite, or in an exit handler of the test's process, after its completion notice - are failed
+    # checks of the run all the same. The model treats suite fixtures as logging only, so this family is judged by the
+    # property's oracle alone: the verdict must be failure under every reporter.
+    late = []
+    for pos in ("setup", "teardown"):
+        fx = (["F"], []) if pos == "setup" else ([], ["F"])
+        for shape in range(4):
+            inner = S("inner", items=[T("a", body=["P"]), T("b", body=["P", "P"])])
+            if shape == 0: root = S("top", su=1, td=1, items=[inner]); root.fixture = fx
+            elif shape == 1: root = S("top", su=1, td=1, items=[inner, T("c", body=["P"])]); root.fixture = fx
+            elif shape == 2: mid = S("mid", su=1, td=1, items=[inner]); mid.fixture = fx; root = S("top", items=[mid])
+            else: mid = S("mid", su=1, td=1, items=[inner]); mid.fixture = fx; root = S("top", items=[S("first", items=[T("p", body=["P"])]), mid, T("q", body=["P"])])
+            for mode in ("fork", "inproc"):
+                late.append((Scen(root, mode=mode), f"a failed check in the suite {pos} fixture that the reporting process runs around a sub-suite"))
+    for shape in range(4):
+        z = T("z", body=["P", "AX"])
+        if shape == 0: root = S("top", items=[T("a", body=["P"]), z])
+        elif shape == 1: root = S("top", items=[z])
+        elif shape == 2: root = S("top", items=[S("inner", items=[T("a", body=["P"]), z])])
+        else: root = S("top", items=[S("inner", items=[z]), T("b", body=["P"])])
+        late.append((Scen(root, mode="fork"), "a failed check in an exit handler of the last test's process, after its completion notice"))
+    lobs = bench.run_many([(sc.text(), r) for sc, _ in late for r in REPORTERS_ALL])
+    k = 0; lshown = 0
+    for sc, lab in late:
+        for r in REPORTERS_ALL:
+            o = lobs[k]; k += 1
+            if status_of(o) in ("0", "exit0") and lshown < 4:
+                lshown += 1
+                ctx.violation(f"[C01] {lab}: the run's verdict is success under the {r} reporter", f"# reporter: {r}   harness/scenario_run <file> {r} <outdir>\n" + sc.text(), found_input=True,
+                              facts={"outside_bracket": True, "rep": r})
+    ctx.coverage["outside_bracket_runs"] = len(lobs)
     ctx.coverage["samples"] = sample_of(scens)
     ctx.coverage["rule"] = "scenario = suite tree x behaviour per test x mode, each run under every listed reporter; small-scope shapes + random structured trees"
     ctx.coverage["evaluations"] = ctx.coverage["correspondence"]["cases"]
@@ -568,8 +600,46 @@ def check_C13(ctx):
             shown += 1
             ctx.violation("[C13] " + "; ".join(errs[:3]), "# the same suite under the three execution modes (text reporter)\n" + scens[a].text() + "\n" + scens[b].text(), found_input=True,
                           facts={"mode": "inproc"})
+    # settings made outside any test - by a suite's fixture that the reporting process runs around a sub-suite, or by the
+    # program before the run - must not make the modes differ either (not modelled: the three modes are compared with each other)
+    outside = []
+    for setting, probe in (("G3", "D"), ("G2", "D"), ("ML", "CU"), ("MG", "CU")):
+        for shape in range(3):
+            tests = [T(f"t{k}", body=[probe] + (["P"] if k % 2 else [])) for k in range(rng.choice([2, 3, 4]))]
+            if shape == 0:
+                root = S("top", su=1, td=1, items=[S("inner", items=tests[:-1]), tests[-1]]); root.fixture = ([setting], [])
+                sc = Scen(root)
+            elif shape == 1:
+                inner = S("inner", su=1, items=[S("innermost", items=tests)]); inner.fixture = ([setting], [])
+                sc = Scen(S("top", items=[inner]))
+            else:
+                sc = Scen(S("top", items=tests)); sc.pre = [setting]
+            outside.append(sc)
+    ojobs, oidx = [], []
+    for sc in outside:
+        names = [t.name for _, t in sc.root.tests()]
+        row = []
+        for mode in ["fork", "inproc"] + ["single:" + n for n in names]:
+            c = sc.copy(); c.mode = mode
+            row.append((mode, len(ojobs))); ojobs.append(c)
+        oidx.append(row)
+    oobs = bench.run_many([(c.text(), "text") for c in ojobs])
+    for sc, row in zip(outside, oidx):
+        base = fw_observed(oobs[row[0][1]], ojobs[row[0][1]])
+        errs = []
+        for mode, j in row[1:]:
+            got = fw_observed(oobs[j], ojobs[j])
+            for name, v in got.items():
+                if mode.startswith("single:") and name != mode[7:]:
+                    continue
+                if base.get(name) != v:
+                    errs.append(f"test {name}: forked (failures, too-many-calls)={base.get(name)}, {mode} {v}")
+        if errs and shown < 8:
+            shown += 1
+            ctx.violation("[C13] a setting made outside any test makes the execution modes differ: " + "; ".join(errs[:3]),
+                          "# the same suite under the execution modes (text reporter): cfg line fork / inproc / single:<test>\n" + sc.text(), found_input=True, facts={"outside_setting": True})
     ctx.oblige("correspondence C13: model and implementation agree on every generated run", ndis == 0, f"{ndis} disagreements")
-    ctx.coverage["correspondence"] = {"cases": len(scens), "disagreements": ndis, "oracle_evaluations": len(trip)}
+    ctx.coverage["correspondence"] = {"cases": len(scens) + len(ojobs), "disagreements": ndis, "oracle_evaluations": len(trip) + len(outside)}
     ctx.coverage["samples"] = sample_of(scens, 3)
     ctx.coverage["evaluations"] = len(scens)
     ctx.coverage["distinct_nontrivial"] = len({s.text() for s in scens})
